@@ -22,7 +22,7 @@ Extraction "model.ml"
   BinInt.Z.eqb BinInt.Z.compare
   TopsortAlgo.toposort_impl TopsortAlgo.sort_by_indices Topsort.topsort Topsort.build_dag
   C11Spec.good_C11 C11Spec.known_C11 C11Spec.acyclic C11Spec.perm_ok C11Spec.topo_ok
-  Types.parse_ty Types.rtype_display Types.item_id Parse.parse_file Reconcile.reconcile_aliases Collect.single_file_input Collect.collect TypeScript.ts_generate TypeScript.ts_file_decls Python.py_file_decls Swift.sw_file_decls Scala.sc_file_decls Python.py_generate Swift.sw_generate Go.go_generate Scala.sc_generate Kotlin.kt_generate Kotlin.kt_file_decls
+  Types.parse_ty Types.rtype_display Types.item_id Parse.parse_file Reconcile.reconcile_aliases Collect.single_file_input Collect.collect TypeScript.ts_generate TypeScript.ts_file_decls Go.go_file_decls Python.py_file_decls Swift.sw_file_decls Scala.sc_file_decls Python.py_generate Swift.sw_generate Go.go_generate Scala.sc_generate Kotlin.kt_generate Kotlin.kt_file_decls
   C08Spec.item_unsupported C08Spec.known_C08 C03Spec.leaves_of C03Spec.expected_leaf C03Spec.expected_leaves C03Spec.leaf_ident
   C03Spec.expected_field_names C03Spec.expected_variant_names Parse.parse_struct Parse.parse_enum Parse.parse_type_alias Parse.parse_const
   TargetOs.accept_target_os TargetOsRule.os_rule TargetOsRule.cfg_parsable
